@@ -192,3 +192,7 @@ package ast
 //@   ghost_entry $execStamp = $stamp
 //@   ghost_exit $actionFailed = err != nil
 //@   ghost_exit $sinceExec = 0
+
+//@ extern func context.Background() (c)
+//@   nopanic
+//@   ensures c != nil
